@@ -8,7 +8,10 @@ PROPERTY = "C01"
 DRIVER = "TraitsVerif/Driver/Val.lean"
 PROPS_MODULES = ["TraitsVerif.Props.C01"]
 TRANSLATORS = ["validate_tables"]
-RULE = ("a HasTraits class with three attributes (x: the trait under test, y: Int, z: a Map) is built per case; "
+RULE = ("routes: attribute assignment, trait_set, constructor keyword on a fresh object, "
+        "trait_set(trait_change_notify=False) and trait_setq, each followed by a comparison of the instance dict "
+        "(value and mapped shadow) with the model and the reference; "
+        "a HasTraits class with three attributes (x: the trait under test, y: Int, z: a Map) is built per case; "
         "every trait term of the option grid (C03's grid plus int Range, String, PrefixList/PrefixMap, Type, Union, "
         "Array(dtype, shape, casting) with arrays of 5 dtypes / 6 shapes) meets every value of the lattice through attribute assignment, "
         "trait_set and a constructor keyword (chunks of 8 values per history, interleaved with assignments to "
@@ -30,7 +33,11 @@ DISTINCT_BY_OUTPUT = False
 
 Y_TRAIT = "Int"
 Z_TRAIT = "(Map ((s yes) (i 1)) ((s no) (i 0)))"
-SIDE_OPS = ["set y (i 7)", "set z (s no)", "tset y (s a)", "set z (i 5)", "tset z (s yes)", "set y (ni 8 3)"]
+SIDE_OPS = ["set y (i 7)", "set z (s no)", "tset y (s a)", "set z (i 5)", "tset z (s yes)", "set y (ni 8 3)",
+            "qset z (s no)", "setq z (s yes)", "setq z (i 5)", "qset y (i 9)"]
+# assignment routes: set = attribute assignment, tset = trait_set(name=v), new = constructor keyword on a fresh
+# object, qset = trait_set(trait_change_notify=False, name=v), setq = trait_setq(name=v)
+KINDS = ["set", "set", "tset", "new", "qset", "setq"]
 
 
 def corpus():
@@ -41,6 +48,12 @@ def corpus():
         make_case("(CoerceH float)", [("set", "(i 3)")]),
         make_case("(Base (Enum (i 1) (i 2)))", [("set", "(nd 2 (2))"), ("set", "(badeq 0)")]),
         make_case("(Tuple Int Int)", [("set", "(ts (i 1) (i 2))"), ("set", "(ts (b 1) (i 2))")]),
+        # quiet routes on a fresh object, and over a previous value: the shadow must follow
+        make_case("(Map ((s yes) (i 1)) ((s no) (i 0)))", [("setq", "(s no)"), ("qset", "(s yes)"), ("setq", "(s x)"), ("set", "(s no)")]),
+        make_case("(Map ((s yes) (i 1)) ((s no) (i 0)))", [("set", "(s no)"), ("qset", "(s yes)"), ("new", "(s no)"), ("setq", "(s yes)")]),
+        make_case("(PrefixMap (yes (i 1)) (no (i 0)))", [("qset", "(s n)"), ("setq", "(s ye)"), ("tset", "(s no)"), ("setq", "(s yes)")]),
+        make_case("(MapH ((s yes) (i 1)) ((s no) (i 0)))", [("setq", "(s no)"), ("set", "(s yes)"), ("qset", "(s no)")]),
+        "#" + make_case("(Either 0 Float (Map ((s yes) (i 1)) ((s no) (i 0))))", [("setq", "(s yes)"), ("qset", "(f 12)"), ("setq", "(s no)")]),
         # a compound with a Map member is mapped: outside the model (run on the implementation + oracle only)
         "#" + make_case("(Either 0 Float (Map ((s yes) (i 1)) ((s no) (i 0))))", [("set", "(f 12)"), ("set", "(s yes)"), ("set", "(f 4)")]),
         "#" + make_case("(Either 0 Float (MapH ((s yes) (i 1)) ((s no) (i 0))))", [("set", "(f 12)"), ("set", "(s yes)")]),
@@ -74,7 +87,7 @@ def generate(rng, tier):
         ncomp, depth = 20000, 4
     else:
         ncomp, depth = 15000, 4
-    kinds = ["set", "set", "tset", "new"]
+    kinds = KINDS
     for tt in singles:
         order = list(L)
         rng.shuffle(order)
@@ -539,6 +552,10 @@ def run_impl(case):
                     setattr(obj, name, value)
                 elif k == "tset":
                     obj.trait_set(**{name: value})
+                elif k == "qset":
+                    obj.trait_set(trait_change_notify=False, **{name: value})
+                elif k == "setq":
+                    obj.trait_setq(**{name: value})
                 else:
                     target = A(**{name: value})
         except BaseException as e:  # noqa: B902
